@@ -255,10 +255,30 @@ def _r13_own_mass(ctx, pkg):
         # private helpers the getter calls (a generator of the per-element contributions, a summing helper) are part of it
         from .c09 import method_closure
         helpers = [h for h in method_closure(pkg, "Species", fn)[1:] if not any(ast.unparse(d) in ("property", "cached_property", "functools.cached_property") for d in h.decorator_list)]
+        # ... and so are the plain functions of the module that are handed the species itself (`_add_up(self)`), their parameter standing for it
+        import copy
+        from ..normalize import _Subst
+        for g_ in list(helpers) + [fn]:
+            for c_ in ast.walk(g_):
+                if isinstance(c_, ast.Call) and isinstance(c_.func, ast.Name) and (SPECIES, c_.func.id) in pkg.functions and not c_.keywords:
+                    mf = pkg.functions[(SPECIES, c_.func.id)]
+                    at = [i for i, a_ in enumerate(c_.args) if isinstance(a_, ast.Name) and a_.id == "self"]
+                    if len(at) == 1 and at[0] < len(mf.args.args) and not any(h_.name == mf.name for h_ in helpers):
+                        pn = mf.args.args[at[0]].arg
+                        if pn != "self" and any(isinstance(n_, ast.Name) and n_.id == "self" for n_ in ast.walk(mf)):
+                            continue
+                        m2 = copy.deepcopy(mf)
+                        if pn != "self":
+                            m2.body = [_Subst({pn: ast.Name(id="self", ctx=ast.Load())}).visit(st_) for st_ in m2.body]
+                        helpers.append(m2)
         for h in helpers:
             if any(isinstance(x, ast.Attribute) and x.attr == "element_count" and isinstance(x.value, ast.Name) and x.value.id == "self" for x in ast.walk(h)):
                 composed = True
-            if any(isinstance(x, ast.Attribute) and isinstance(x.value, ast.Name) and x.value.id == "self" and x.attr in NAMELIKE for x in ast.walk(h)):
+            # (a spelling pasted into a log / warning / error message computes nothing)
+            said = {id(y) for m_ in ast.walk(h) if isinstance(m_, ast.Raise) or (isinstance(m_, ast.Call) and (
+                (isinstance(m_.func, ast.Attribute) and isinstance(m_.func.value, ast.Name) and m_.func.value.id in ("logging", "logger", "warnings", "log"))
+                or (isinstance(m_.func, ast.Name) and m_.func.id == "print"))) for y in ast.walk(m_)}
+            if any(isinstance(x, ast.Attribute) and isinstance(x.value, ast.Name) and x.value.id == "self" and x.attr in NAMELIKE and id(x) not in said for x in ast.walk(h)):
                 opaque.append(f"{h.name}() reads a spelling of the species")
         if helpers:
             # what the getter returns / accumulates then comes out of those helpers
@@ -338,9 +358,13 @@ def _r8(ctx, pkg):
     a copy silently falls back to the tables."""
     fn = pkg.cls("Component").methods.get("_create_species")
     if fn is None:
+        # under another name, by role: the one method of Component that constructs a Species
+        making = [m for m in pkg.cls("Component").methods.values() if any(isinstance(c, ast.Call) and isinstance(c.func, ast.Name) and c.func.id == "Species" for c in ast.walk(m))]
+        fn = making[0] if len(making) == 1 else None
+    if fn is None:
         ctx.missing("R8", "Component._create_species", ("naunet/component.py", 0), "method vanished")
         return
-    ctx.saw("naunet/component.py", "Component._create_species")
+    ctx.saw("naunet/component.py", f"Component.{fn.name}")
     arg = fn.args.args[1].arg if len(fn.args.args) > 1 else None
     # by facts, whatever the control flow (guard clause, if/else, conditional expression): on every path where the argument IS
     # a Species instance the method returns the argument itself
@@ -348,7 +372,7 @@ def _r8(ctx, pkg):
     INST = ("call", ("global", "isinstance"), (("param", arg), ("global", "Species")), ())
 
     def _priv(name):
-        return pkg.resolve("Component", name)[1] if name.startswith("_") and not name.startswith("__") and name != "_create_species" else None
+        return pkg.resolve("Component", name)[1] if name.startswith("_") and not name.startswith("__") and name != fn.name else None
     rets = [f for f in Flow(fn, "naunet/component.py", resolver=_priv).facts if f.kind == "return"]
     on_inst = []
     for f in rets:
@@ -377,14 +401,41 @@ def _r8(ctx, pkg):
 CHEMDATA = "naunet/chemistrydata/__init__.py"
 
 
+def _module_helpers_put_back(pkg, file, fn):
+    """a copy of module function `fn` with the plain functions of the same module it was split into put back in place
+    (normalize.expand_helpers); `fn` itself when that fails"""
+    try:
+        import copy
+        from ..normalize import expand_helpers
+        locs = {n.id for n in ast.walk(fn) if isinstance(n, ast.Name) and isinstance(n.ctx, ast.Store)} | {a.arg for a in ast.walk(fn.args) if isinstance(a, ast.arg)}
+
+        def put_back(call):
+            if isinstance(call.func, ast.Name) and call.func.id not in locs:
+                g = pkg.functions.get((file, call.func.id))
+                if g is not None and g is not fn and not any(isinstance(n, (ast.Yield, ast.YieldFrom)) or (isinstance(n, ast.Name) and n.id == fn.name) for n in ast.walk(g)):
+                    return g, None
+            return None
+        return expand_helpers(copy.deepcopy(fn), put_back)
+    except Exception:
+        return fn
+
+
 def _r7(ctx, pkg):
     """Built-in table (last stage of the binding-energy lookup): the key of a record is its first blank-separated token WHOLE
     (the table has neutrals and their anions, `OH` and `OH-`, with different energies), the value float(second token)."""
-    fn = pkg.func(CHEMDATA, "_read_binding_energy")
+    # the reader of the built-in table, by use: the module function whose call is bound to `rate12_binding_energy` at module level
+    reader = "_read_binding_energy"
+    for st in pkg.modules[CHEMDATA].body if CHEMDATA in pkg.modules else ():
+        tg = st.targets[0] if isinstance(st, ast.Assign) and len(st.targets) == 1 else st.target if isinstance(st, ast.AnnAssign) and st.value is not None else None
+        if tg is not None and isinstance(st.value, ast.Call) and isinstance(st.value.func, ast.Name) and (CHEMDATA, st.value.func.id) in pkg.functions and (
+                (isinstance(tg, ast.Name) and tg.id == "rate12_binding_energy") or (isinstance(tg, ast.Tuple) and any(isinstance(e, ast.Name) and e.id == "rate12_binding_energy" for e in tg.elts))):
+            reader = st.value.func.id
+    fn = pkg.func(CHEMDATA, reader)
     if fn is None:
         ctx.missing("R7", "_read_binding_energy", (CHEMDATA, 0), "reader of the built-in binding-energy table vanished")
         return
-    ctx.saw(CHEMDATA, "_read_binding_energy")
+    ctx.saw(CHEMDATA, reader)
+    fn = _module_helpers_put_back(pkg, CHEMDATA, fn)
     fl = Flow(fn, CHEMDATA)
     ret = [simp(f.value) for f in fl.facts if f.kind == "return"]
     acc = ret[0][1] if len(ret) == 1 and ret[0][0] == "acc" else None
@@ -392,7 +443,7 @@ def _r7(ctx, pkg):
         # the reader returns several tables: the one the module binds to `rate12_binding_energy` (by position of the unpacking)
         for st in pkg.modules[CHEMDATA].body:
             if isinstance(st, ast.Assign) and len(st.targets) == 1 and isinstance(st.targets[0], ast.Tuple) and isinstance(st.value, ast.Call) \
-                    and isinstance(st.value.func, ast.Name) and st.value.func.id == "_read_binding_energy" and len(st.targets[0].elts) == len(ret[0][1]):
+                    and isinstance(st.value.func, ast.Name) and st.value.func.id == reader and len(st.targets[0].elts) == len(ret[0][1]):
                 for i, t in enumerate(st.targets[0].elts):
                     if isinstance(t, ast.Name) and t.id == "rate12_binding_energy" and ret[0][1][i][0] == "acc":
                         acc = ret[0][1][i][1]
@@ -775,16 +826,34 @@ def _r1(ctx, rm, pkg):
                           f"{dc}.{mname} yields " + ("a rate template" if "text" in kinds else "NotImplemented (refused with NotImplementedError)") if ok and not empty else
                           f"{dc}.{mname} returns {sorted(kinds)}{' / an empty template' if empty else ''}: a request the model does not implement would produce a rate",
                           expected="template or NotImplemented")
-            # overrides call super() first
+            # overrides call super() first (read with the private helpers the override was split into put back: the base call that
+            # opens an extracted first block is still the first thing the override does)
             if dc != "Grain":
-                first = fn.body[0]
-                if isinstance(first, ast.Expr) and isinstance(first.value, ast.Constant) and len(fn.body) > 1:
-                    first = fn.body[1]
+                try:
+                    fx = pkg.expanded(dc, mname)
+                except Exception:
+                    fx = fn
+                if len(fx.args.args) != len(fn.args.args) or [a.arg for a in fx.args.args] != [a.arg for a in fn.args.args]:
+                    fx = fn
+
+                def opening(f_):
+                    first = f_.body[0]
+                    if isinstance(first, ast.Expr) and isinstance(first.value, ast.Constant) and len(f_.body) > 1:
+                        first = f_.body[1]
+                    return first
+                first = opening(fx)
+                if not _is_base_call(pkg, dc, fn, mname, first) and _is_base_call(pkg, dc, fn, mname, opening(fn)):
+                    fx, first = fn, opening(fn)
                 src = ast.unparse(first)
+                is_base = lambda x: isinstance(x, ast.Call) and isinstance(x.func, ast.Attribute) and x.func.attr == mname \
+                    and ((isinstance(x.func.value, ast.Call) and isinstance(x.func.value.func, ast.Name) and x.func.value.func.id == "super")
+                         or (isinstance(x.func.value, ast.Name) and x.func.value.id in pkg.mro(dc)[1:]))
                 # anywhere else in the override: the base method's validation still runs, but not provably before the template is built
-                elsewhere = [x for x in ast.walk(fn) if isinstance(x, ast.Call) and isinstance(x.func, ast.Attribute) and x.func.attr == mname
-                             and ((isinstance(x.func.value, ast.Call) and isinstance(x.func.value.func, ast.Name) and x.func.value.func.id == "super")
-                                  or (isinstance(x.func.value, ast.Name) and x.func.value.id in pkg.mro(dc)[1:]))]
+                elsewhere = [x for x in ast.walk(fx) if is_base(x)] + [x for x in ast.walk(fn) if is_base(x)]
+                # ... or inside a helper the override calls (a method reached through self, a function of the module) that could not
+                # be put back in place: the base method is called, where exactly is not read
+                if not elsewhere:
+                    elsewhere = _base_call_in_helpers(pkg, dc, fx, is_base)
                 if _is_base_call(pkg, dc, fn, mname, first) or not elsewhere and not fn.decorator_list:
                     ctx.check(_is_base_call(pkg, dc, fn, mname, first), "R1", f"{dc}.{mname}:super-first", (pkg.cls(dc).file, fn.lineno),
                               "the override first runs the base method (type and arity validation)", expected=f"super().{mname}(reac)", found=src[:60])
@@ -867,6 +936,28 @@ def _r1(ctx, rm, pkg):
             ctx.unrec("R1", key_, (g.file, fn.lineno), "the method reads the reaction type / calls something, but no `raise` under a comparison of the type with one ReactionType member is seen")
         else:
             ctx.bad("R1", key_, (g.file, fn.lineno), msg_, expected=f"raise unless reaction_type == {tau}", found="no raise under a test of the reaction type")
+
+
+def _base_call_in_helpers(pkg, dc, fn, is_base) -> list:
+    """calls of the base method inside the helpers `fn` (a method of class dc) reaches: methods called through self / cls / the class
+    name (MRO of dc) and functions of the module called by bare name, transitively"""
+    file = pkg.cls(dc).file
+    seen, todo, found = set(), [fn], []
+    while todo and len(seen) < 60:
+        f = todo.pop()
+        for c in ast.walk(f):
+            if not isinstance(c, ast.Call):
+                continue
+            callee = None
+            if isinstance(c.func, ast.Attribute) and isinstance(c.func.value, ast.Name) and c.func.value.id in ("self", "cls", dc):
+                callee = pkg.resolve(dc, c.func.attr)[1]
+            elif isinstance(c.func, ast.Name):
+                callee = pkg.functions.get((file, c.func.id))
+            if callee is not None and id(callee) not in seen:
+                seen.add(id(callee))
+                found += [x for x in ast.walk(callee) if is_base(x)]
+                todo.append(callee)
+    return found
 
 
 def _is_base_call(pkg, dc, fn, mname, st) -> bool:
@@ -1001,18 +1092,20 @@ def _r2_r5(ctx, rm, pkg):
     vs = [v for v in rm.variants("RR07Grain", "rate_depletion") if v.kind == "text"]
     from ..valueflow import guards_satisfiable
     for v in vs:
-        if not guards_satisfiable(v.conds):
+        # (the conditions of an arm: those on the path to the return, and those of the conditional EXPRESSION the text was chosen by)
+        vconds = tuple(v.conds) + tuple((c_, p_) for c_, p_ in v.assume.items() if (c_, p_) not in v.conds)
+        if not guards_satisfiable(vconds):
             continue        # a combination of conditions no species satisfies (e.g. electron and not electron)
         # `<the accreting species>.is_electron`, however that species is picked (position 0, unpacking, the non-grain reactant)
-        elec = {x for c_, _ in v.conds for x in walk(c_) if isinstance(x, tuple) and len(x) == 3 and x[0] == "attr" and x[2] == "is_electron" and species_role(x[1]) in ("s", "ng")}
-        el = any(not guards_satisfiable(v.conds, [(a, False)]) for a in elec)      # the conditions of this arm force the electron
-        non_el = any(not guards_satisfiable(v.conds, [(a, True)]) for a in elec)   # ... or exclude it
+        elec = {x for c_, _ in vconds for x in walk(c_) if isinstance(x, tuple) and len(x) == 3 and x[0] == "attr" and x[2] == "is_electron" and species_role(x[1]) in ("s", "ng")}
+        el = any(not guards_satisfiable(vconds, [(a, False)]) for a in elec)      # the conditions of this arm force the electron
+        non_el = any(not guards_satisfiable(vconds, [(a, True)]) for a in elec)   # ... or exclude it
         names = {h: (name_hole(ir)[0] or "UNKNOWN") for h, ir in v.holes.items()}
         if "UNKNOWN" in names.values() or not (el or non_el):
             # a pasted value that is not understood, or an arm that is not seen to be (or not to be) the electron's: its mass
             # dependence is not judged
             ctx.unrec("R5", f"RR07Grain.rate_depletion:arm@{v.line}", (v.file, v.line), "cannot tell whether this arm of the accretion law is the electron's / which values it pastes: "
-                      + "; ".join(show(c_)[:50] for c_, _ in v.conds)[:160])
+                      + "; ".join(show(c_)[:50] for c_, _ in vconds)[:160])
             continue
         txt = re.sub(r"H\d+_", lambda m: names.get(m.group(0), m.group(0)), v.text)
         try:
@@ -1024,7 +1117,7 @@ def _r2_r5(ctx, rm, pkg):
             ctx.check(exps == {Fraction(0)}, "R5", "RR07Grain.rate_depletion:electron arm", (v.file, v.line), "electron accretion (mass number 0) has no mass-number factor", found=txt[:100])
         else:
             texps = {exp_of(m, "R_temperature") - exp_of(m, "A_s") for m in c.terms}
-            ctx.check(exps == {Fraction(-1, 2)}, "R5", f"RR07Grain.rate_depletion:A_s^-1/2:{'neutral' if any('charge' in show(c2) and p for c2, p in v.conds) else 'ion'}", (v.file, v.line),
+            ctx.check(exps == {Fraction(-1, 2)}, "R5", f"RR07Grain.rate_depletion:A_s^-1/2:{'neutral' if any('charge' in show(c2) and p for c2, p in vconds) else 'ion'}", (v.file, v.line),
                       "accretion ~ (T/A_s)^(1/2) of the accreting species", expected="A_s^-1/2", found=f"{sorted(map(str, exps))} in {txt[:100]}")
 
 
@@ -1268,6 +1361,14 @@ def _r12_tunnelling(ctx, pkg):
     HF = "naunet/grains/hh93grain.py"
     ci = pkg.cls("HH93Grain")
     meths = {k: fn for k, fn in ci.methods.items() if isinstance(fn, _ast.FunctionDef)}
+    # (each method read with the private helpers it was split into put back -- the shared surface helper and the public rate_* methods
+    # stay calls: the quantum factor read in an extracted block is still read by the method the block came from)
+    keep = tuple(sorted({k for k in meths if k.startswith("rate_")} | {_SURF[0]}))
+    for k in list(meths):
+        try:
+            meths[k] = pkg.expanded("HH93Grain", k, keep=keep)
+        except Exception:
+            pass
     uses_q = {k for k, fn in meths.items() if any(isinstance(n, _ast.Attribute) and n.attr == "quantum_diffusion_rate_factor" for n in _ast.walk(fn))}
     if not uses_q:
         ctx.unrec("R12", "HH93:tunnelling species", (HF, ci.node.lineno), "no method of HH93Grain reads the quantum diffusion factor")
